@@ -6,7 +6,8 @@
  *   file <opts> <gen> <outdir> <path of root schema>
  *        opts: comma separated name=value (see set_opt below) or "-"
  *   -> R <parse rc> <diagnostics delivered to the error callback> <generate rc | n> <files in outdir> <stdout bytes> <leak 0|1> <first diagnostic, sanitized>
- *   HANG is printed (and the process exits) when a case exceeds the alarm. After a reply with leak = 1 the process exits
+ *   `HANG alarm` is printed (and the process exits) when a case exceeds the alarm (COMPILE_FUZZ_ALARM seconds, default 20),
+ *   `HANG flood <n>` when more than COMPILE_FUZZ_FLOOD (default 20000) diagnostics were delivered in one cycle (runaway error loop). After a reply with leak = 1 the process exits
  *   (the driver restarts it with the next line).
  * The protocol goes to a dup of the original stdout; fd 1 itself is pointed at a scratch file so that
  * gen_stdout output can be measured.
@@ -33,12 +34,20 @@
 
 static FILE *proto;
 static int ndiag;
+static int flood_limit = 20000;
+static unsigned alarm_seconds = 20;
 static char first_diag[160];
 
 static void on_error(void *ctx, const char *buf, size_t len)
 {
     size_t i, n;
     (void)ctx;
+    /* bounded error reporting: the parser stops near FLATCC_MAX_ERRORS per file; a flood means the error cap no longer ends a loop */
+    if (ndiag > flood_limit) {
+        char msg[64]; int k = snprintf(msg, sizeof(msg), "HANG flood %d\n", ndiag);
+        if (write(fileno(proto), msg, (size_t)k) < 0) {}
+        _exit(7);
+    }
     if (ndiag++ == 0) {
         n = len < sizeof(first_diag) - 1 ? len : sizeof(first_diag) - 1;
         for (i = 0; i < n; ++i) {
@@ -51,7 +60,7 @@ static void on_error(void *ctx, const char *buf, size_t len)
 
 static void on_alarm(int sig)
 {
-    static const char msg[] = "HANG\n";
+    static const char msg[] = "HANG alarm\n";
     (void)sig;
     if (write(fileno(proto), msg, sizeof(msg) - 1) < 0) {}
     _exit(7);
@@ -126,6 +135,8 @@ int main(void)
     unlink(stdout_path);
     dup2(stdout_fd, 1);
     signal(SIGALRM, on_alarm);
+    if (getenv("COMPILE_FUZZ_ALARM")) alarm_seconds = (unsigned)atoi(getenv("COMPILE_FUZZ_ALARM"));
+    if (getenv("COMPILE_FUZZ_FLOOD")) flood_limit = atoi(getenv("COMPILE_FUZZ_FLOOD"));
 
     while ((line = hx_getline())) {
         flatcc_options_t opts;
@@ -162,7 +173,7 @@ int main(void)
         ndiag = 0; first_diag[0] = 0;
         if (ftruncate(stdout_fd, 0) < 0) {}
         lseek(stdout_fd, 0, SEEK_SET);
-        alarm(20);
+        alarm(alarm_seconds);
         ctx = flatcc_create_context(&opts, name, on_error, 0);
         if (!ctx) {
             alarm(0);
